@@ -58,3 +58,45 @@ Example c07_accept_example :
             initial_sequence := 33434; multipath := Classic; port_direction := PdNone;
             min_round_duration := 1000; max_round_duration := 1000 |}.
 Proof. split; [reflexivity|]. unfold cfg_wf, u8, u16; cbn; lia. Qed.
+
+(* Known finding F2: for TCP the separation does NOT hold.  Witness (also corpus/C07/f2_tcp_wrap_overlap.case, replayed on
+   the real TracerState on every run): initial_sequence 64511, rounds of 300 / 250 / 320 sequences. *)
+Definition f2_cfg : scfg :=
+  {| target_addr := [10;0;0;1]; proto := Tcp; trace_identifier := 0; max_rounds := None;
+     first_ttl := 1; max_ttl := 5; grace_duration := 0; max_inflight := 24; initial_sequence := 64511;
+     multipath := Classic; port_direction := FixedSrc 5000; min_round_duration := 0; max_round_duration := 10000 |}.
+
+Fixpoint f2_reissues (n : nat) (s : tstate) : result tstate :=
+  match n with
+  | O => Ok s
+  | S n' => match reissue_probe f2_cfg s 0 with Ok (_, s') => f2_reissues n' s' | Err e => Err e | Fault f => Fault f end
+  end.
+
+(* one probe followed by n port collisions *)
+Definition f2_sends (n : nat) (s : tstate) : result tstate :=
+  match next_probe f2_cfg s 0 with Ok (_, s1) => f2_reissues n s1 | Err e => Err e | Fault f => Fault f end.
+
+Definition f2_states : result (tstate * tstate) :=
+  let* a := f2_sends 299 (ts_new f2_cfg 0) in
+  let* a' := advance_round f2_cfg a 1 0 in
+  let* b := f2_sends 249 a' in                  (* the preceding round: sequences 64811 .. 65060 *)
+  let* b' := advance_round f2_cfg b 1 0 in      (* wrap: restart at 64511 *)
+  let* c := f2_sends 319 b' in                  (* the current round: sequences 64511 .. 64830 *)
+  Ok (b, c).
+
+Theorem c07_separation_tcp_refuted :
+  Accept f2_cfg /\
+  exists prev cur, f2_states = Ok (prev, cur) /\ round cur = round prev + 1 /\
+    exists q, (round_sequence prev <= q < sequence prev) /\ (round_sequence cur <= q < sequence cur).
+Proof.
+  split.
+  - split; [reflexivity|]. unfold cfg_wf; cbn; unfold u8, u16; repeat split; try lia.
+  - assert (H : match f2_states with
+                | Ok (prev, cur) => (round cur =? round prev + 1) && (round_sequence prev <=? 64811) && (64811 <? sequence prev)
+                                    && (round_sequence cur <=? 64811) && (64811 <? sequence cur)
+                | _ => false end = true) by (vm_compute; reflexivity).
+    destruct f2_states as [[prev cur]|?|?]; try discriminate.
+    exists prev, cur. split; [reflexivity|].
+    repeat (apply andb_true_iff in H; destruct H as [H ?]).
+    split; [lia|]. exists 64811. lia.
+Qed.
